@@ -121,19 +121,37 @@ func checkEnergy(c energyCase, o *kit.Obs) error {
 				o.Skip("delta-lobe-grazing")
 				return nil
 			}
-			f0, _, frac, ok := capProbe(bsdf, l.axis)
+			// the flux through the spike: BSDF*|cos| on the axis times the measured size of the cap.  Across the
+			// cap (angular radius 1.4e-4) the cosine, and with it the library's 1/cos and 1/max(cos, cos') factors,
+			// change by at most 1.4e-4*tan(angle to the normal) relative: that is the constancy demanded from the
+			// product and the slack granted to the bound
+			rel := 3e-4 / cs
+			prod := func(w kit.V3) float64 { return bsdf(w) * math.Abs(w.Dot(c.Normal)) }
+			f0, _, frac, ok := capProbe(prod, l.axis, rel)
 			if !ok {
 				o.Skip("delta-lobe-not-isolated")
 				return nil
 			}
-			if !(f0 >= 0) || math.IsInf(f0, 0) {
-				return fmt.Errorf("BSDF component %d is %g on the axis of the %s lobe", c.Comp, f0, l.tag)
+			if f0 < 0 && f0 > -1e-9 {
+				f0 = 0 // rounding noise, as in integ.eval: (1-|cos|)^5 with |cos| = 1+2e-16 at normal incidence gives -1e-70
 			}
-			total += f0 * cs * frac
-			slack += f0 * frac * 4e-4 // the cosine changes by at most the cap radius (1.4e-4 rad) across the cap
+			if !(f0 >= 0) || math.IsInf(f0, 0) {
+				return fmt.Errorf("BSDF component %d is %g on the axis of the %s lobe", c.Comp, f0/cs, l.tag)
+			}
+			total += f0 * frac
+			slack += f0 * frac * rel
 		}
 		if !c.Mat.suiteValue() {
 			o.NonTrivial()
+		}
+		// how much of the bound is used (a probe that missed the spikes would read 0 and check nothing)
+		switch {
+		case total > 0.9:
+			o.Label("refract-flux:>0.9")
+		case total > 0.1:
+			o.Label("refract-flux:0.1..0.9")
+		default:
+			o.Label("refract-flux:<0.1")
 		}
 		if total > 1+1e-6+slack {
 			return fmt.Errorf("refracting material sends out %.6f of the incoming flux (component %d, index %g, cos of incidence %.4g), more than it receives",
@@ -155,6 +173,12 @@ func checkEnergy(c energyCase, o *kit.Obs) error {
 			q.hints = append(q.hints, hint{l.axis, l.sigma()})
 		}
 	}
+	// BSDF*cos is not smooth across the equators of the lobes, across the surface plane (where Lambert and Phong
+	// cut off and |cos| has its kink) and across the parallels normal.w = +-|normal.fixed| where Phong's flux
+	// correction max(cos_in, cos_out) switches
+	q.circles = lobeCircles(lobes)
+	k := math.Abs(c.Normal.Dot(c.Fixed))
+	q.circles = append(q.circles, circle{axis: c.Normal}, circle{axis: c.Normal, kappa: k}, circle{axis: c.Normal, kappa: -k})
 	mass, errs := g.masses(q, cellTol)
 	if q.bad {
 		return fmt.Errorf("BSDF component %d is %g at direction %v (must be finite and non-negative)", c.Comp, q.badVal, q.badAt)
@@ -171,8 +195,15 @@ func checkEnergy(c energyCase, o *kit.Obs) error {
 	if total > 1e-3 && (c.Mat.Kind == "joined" || !c.Mat.suiteValue()) {
 		o.NonTrivial()
 	}
-	if total < 1e-9 {
+	switch {
+	case total < 1e-9:
 		o.Label("zero-side")
+	case total > 0.9:
+		o.Label("flux:>0.9")
+	case total > 0.5:
+		o.Label("flux:0.5..0.9")
+	default:
+		o.Label("flux:<0.5")
 	}
 	// Phong loses energy where its lobe is clipped by the surface (documented in the library's tests), so only
 	// the upper bound is a property; the slack is the stated quadrature tolerance plus the error estimate
@@ -259,7 +290,7 @@ func checkSchlick(c schlickCase, o *kit.Obs) error {
 			o.Skip("delta-lobes-overlap")
 			continue
 		}
-		f0, fb, frac, ok := capProbe(d.density, mirAxis)
+		f0, fb, frac, ok := capProbe(d.density, mirAxis, 1e-9)
 		if !ok {
 			o.Skip("delta-lobe-not-isolated")
 			continue
@@ -290,7 +321,7 @@ func checkSchlick(c schlickCase, o *kit.Obs) error {
 			continue
 		}
 		o.Label("split")
-		g0, gb, gfrac, ok := capProbe(d.density, refrAxis)
+		g0, gb, gfrac, ok := capProbe(d.density, refrAxis, 1e-9)
 		if !ok {
 			o.Skip("delta-lobe-not-isolated")
 			continue
